@@ -368,6 +368,18 @@ struct rng64
     }
 };
 
+// the predecessor's value: a type whose moved-from state is observable (a moved-from int would look unchanged), so
+// that "the values are passed unchanged / forwarded" also catches a use of the values after they were moved away
+struct vtok
+{
+    std::vector<int> v;
+    explicit vtok(int t)
+      : v(1, t)
+    {
+    }
+    int get() const { return v.size() == 1 ? v[0] : -777; }
+};
+
 template <typename Shape>
 static void run_live(case_t const& c, ex::thread_pool_scheduler sched)
 {
@@ -395,9 +407,10 @@ static void run_live(case_t const& c, ex::thread_pool_scheduler sched)
     g_trace = true;
     try
     {
-        out = tt::sync_wait(ex::schedule(sched) | ex::then([token] { return token; }) |
+        out = tt::sync_wait(ex::schedule(sched) | ex::then([token] { return vtok{token}; }) |
             ex::bulk(n,
-                [&, token, nn, counted, slow, logcalls](Shape i, int const& v) {
+                [&, token, nn, counted, slow, logcalls](Shape i, vtok const& vv) {
+                    int const v = vv.get();
                     g_inflight.fetch_add(1, std::memory_order_acq_rel);
                     g_progress.fetch_add(1, std::memory_order_relaxed);
                     long long const ii = (long long) i;
@@ -434,7 +447,8 @@ static void run_live(case_t const& c, ex::thread_pool_scheduler sched)
                     if (t) t_threw = true;
                     if (t) throw idx_error{ii};
                 }) |
-            ex::then([&](int v) {
+            ex::then([&](vtok vv) {
+                int const v = vv.get();
                 calls_at_signal = g_calls.load();
                 inflight_at_signal = g_inflight.load();
                 g_vsig.fetch_add(1);
